@@ -1,4 +1,4 @@
-import Snel.Lemmas.ShardDirs
+import Snel.Lemmas.ShardFresh
 /-!
 # C11 — published segments are immutable and appear or disappear as a whole
 
@@ -41,6 +41,37 @@ new directory instead of writing into an existing one. -/
 theorem C11_restart_allocates_fresh_l0 (s : Shard) (p : Nat × List Ev) (hp : p ∈ s.segs)
     (hl : p.1 < levelSpan) : p.1 < (restart (crash s)).nextL0 :=
   restart_nextL0_fresh s p hp hl
+
+/-- Directories are only ever created under ids no directory has: in EVERY history of stores,
+manual flushes, single flush-worker steps, crashes at any step boundary and restarts (clean or
+not), the job the flush worker will write next has an id that names no existing directory —
+published or left unpublished by a crash. Together with `C11_flush_appends_only` (the worker's
+only effect on the directory set is to append the directory of a job that has not written yet)
+this is "a published segment's files never change". PARTIAL only in the side condition that fewer
+than 10 000 level-0 ids are handed out per process lifetime (`AllSmall`): beyond that the
+level-0 counter runs into the level-1 id range. -/
+theorem C11_flush_creates_fresh_directory_partial (cap k : Nat) (ops : List Op)
+    (hsmall : AllSmall (Shard.init cap k) ops) :
+    let s := runOps (Shard.init cap k) ops
+    ∀ j ∈ s.jobs, j.step = 0 → ∀ p ∈ s.segs, p.1 ≠ j.seg :=
+  (runOps_fresh ops (init_inv cap k) (init_fresh cap k) hsmall).2.unwritten
+
+/-- … and when the worker does create the directory, it is that job's. -/
+theorem C11_created_directory_is_fresh (s : Shard) (h : Inv s) (hf : Fresh s) (j : Job)
+    (hcreated : (flushStep s).segs = s.segs ++ [(j.seg, j.evs)]) (hj : j ∈ s.jobs) (h0 : j.step = 0) :
+    ∀ p ∈ s.segs, p.1 ≠ j.seg :=
+  (flushStep_fresh h hf).2 j hcreated hj h0
+
+/-- Non-vacuity: a crash that leaves an unpublished directory 0, a restart, and the next rotation
+is queued under id 1. -/
+example :
+    let ops := [Op.store ⟨1,0,0⟩, .store ⟨2,0,0⟩, .flushStep, .crash, .store ⟨3,0,0⟩]
+    AllSmall (Shard.init 2 2) ops ∧
+      ((runOps (Shard.init 2 2) ops).jobs.map (·.seg)) = [1] ∧
+      ((runOps (Shard.init 2 2) ops).segs.map (·.1)) = [0] := by
+  refine ⟨?_, by decide, by decide⟩
+  simp only [AllSmall, Small, levelSpan]
+  decide
 
 /-- Ids are fresh with respect to the DISK, not with respect to history: after compaction has
 emptied the level-0 range a restart hands out id 0 again (the property's text allows this;
